@@ -125,6 +125,7 @@ DeclItemAt(body, i, q) ==
   ELSE LET e == At(body, i + 1) IN
     IF i + 1 > Len(body) THEN [item |-> [k |-> "bad", why |-> "escape"], n |-> 1]
     ELSE IF e \in SimpleEscChars THEN [item |-> [k |-> "esc", v |-> SimpleEscVal(e)], n |-> 2]
+    ELSE IF e \in {117, 85} THEN [item |-> [k |-> "bad", why |-> "ucn"], n |-> 1]   \* universal character names: not modelled
     ELSE IF e = 120 THEN                       \* \x hex-digits, as many as there are
       LET r == HexRun(body, i + 2) IN
       IF r = 0 THEN [item |-> [k |-> "bad", why |-> "escape"], n |-> 1]
@@ -178,7 +179,8 @@ DeclStr(parts, targ) ==
       bad  == {i \in 1..np : IsBadSeq(its[i])}
       all  == FlattenSeq([i \in 1..np |-> its[i]])
   IN IF HasNul(parts) THEN Unspec("nul-or-cr-in-source")
-     ELSE IF bad # {} THEN Reject(its[MinOf(bad)][Len(its[MinOf(bad)])].why)
+     ELSE IF bad # {} THEN LET w == its[MinOf(bad)][Len(its[MinOf(bad)])].why IN
+                           IF w = "ucn" THEN Unspec("ucn-not-modelled") ELSE Reject(w)
      ELSE IF "u8" \in P /\ Cardinality(P) >= 2 THEN Reject("prefix-mix")     \* 6.4.5p2 constraint
      ELSE IF Cardinality(P) >= 2 THEN Unspec("wide-prefix-mix")              \* 6.4.5p5 implementation-defined (C23: constraint)
      ELSE IF \E j \in 1..Len(all) : NumOut(all[j], size) THEN Reject("escape-range")   \* 6.4.4.4p9
@@ -198,7 +200,7 @@ DeclChr(pfx, body, targ) ==
       size == ElemSize(pfx)
       it   == its[1]
   IN IF HasNul(<<[body |-> body]>>) THEN Unspec("nul-or-cr-in-source")
-     ELSE IF IsBadSeq(its) THEN Reject(its[Len(its)].why)
+     ELSE IF IsBadSeq(its) THEN (IF its[Len(its)].why = "ucn" THEN Unspec("ucn-not-modelled") ELSE Reject(its[Len(its)].why))
      ELSE IF Len(its) = 0 THEN Reject("empty")
      ELSE IF Len(its) > 1 THEN Unspec("multi-char")                 \* 6.4.4.4p10/11 implementation-defined
      ELSE IF NumOut(it, size) THEN Reject("escape-range")           \* 6.4.4.4p9
